@@ -261,7 +261,7 @@ class Flattener:
                 raise CannotInline("lambda parameter shadows %s" % name)
             if name in caller_names or name in mapping.values():
                 mapping[name] = name + sfx
-        retvar = ("ret" + sfx) if want_value else None
+        retvar = ("inl_ret" + sfx) if want_value else None
         body = _cp(body)
         new_body = _xform(body, _set_ret(retvar, None, call) if want_value else [], retvar)
         holder = ast.Module(body=new_body, type_ignores=[])
@@ -414,6 +414,7 @@ def flatten_model(model):
         if new is not fn.node:
             fn.orig_node = fn.node
             fn.node = new
+    _absorb(model, fl)
     # nested functions of a rewritten function: point them at the copies
     for q, fn in model.funcs.items():
         p = fn.parent
@@ -425,3 +426,75 @@ def flatten_model(model):
                         fn.node = n
                     break
     return fl
+
+
+def _absorb(model, fl):
+    """A private helper (or local closure) all of whose uses were inlined has no behaviour of its own left:
+    it is taken out of the model, so that who-may-write rules do not see the same statements twice."""
+    inlined = {}
+    for caller, helper, _ in fl.log:
+        inlined.setdefault(helper, set()).add(caller)
+    fl.absorbed = []
+    if not inlined:
+        return
+    # remaining references by name, outside the helper's own definition
+    def refs(name, skip_nodes):
+        n_ = 0
+        seen_roots = []
+        for q, f in model.funcs.items():
+            if "posc.py" in f.path and f.parent is None and not f.cls:
+                pass
+            root = f.node
+            if f.parent is not None:
+                continue  # visited through its top-level ancestor
+            seen_roots.append(root)
+        for ci in model.classes.values():
+            for st in ci.node.body:
+                if not isinstance(st, (ast.FunctionDef, ast.AsyncFunctionDef)):
+                    seen_roots.append(st)
+        for rel, (tree, _src) in model.trees.items():
+            for st in tree.body:
+                if not isinstance(st, (ast.FunctionDef, ast.AsyncFunctionDef, ast.ClassDef)):
+                    seen_roots.append(st)
+        stack = list(seen_roots)
+        while stack:
+            x = stack.pop()
+            if any(x is s_ for s_ in skip_nodes):
+                continue
+            if (isinstance(x, ast.Attribute) and x.attr == name) or (isinstance(x, ast.Name) and x.id == name):
+                n_ += 1
+            stack.extend(ast.iter_child_nodes(x))
+        return n_
+
+    for hq in sorted(inlined):
+        g = model.funcs.get(hq)
+        if g is None or not (g.name.startswith("_") or g.parent is not None):
+            continue
+        skip = [g.node, getattr(g, "orig_node", None)]
+        # the definition statement inside a rewritten parent is a copy: find it by name
+        if g.parent is not None:
+            for x in ast.walk(g.parent.node):
+                if isinstance(x, (ast.FunctionDef, ast.AsyncFunctionDef)) and x.name == g.name:
+                    skip.append(x)
+        if refs(g.name, [x for x in skip if x is not None]):
+            continue
+        fl.absorbed.append(hq)
+        del model.funcs[hq]
+        if g in model.by_name.get(g.name, []):
+            model.by_name[g.name].remove(g)
+        if g.cls and g.is_method and model.classes.get(g.cls) and model.classes[g.cls].methods.get(g.name) is g:
+            del model.classes[g.cls].methods[g.name]
+        if model.module_funcs.get(g.module, {}).get(g.name) is g:
+            del model.module_funcs[g.module][g.name]
+        if g.parent is not None:
+            # drop the local definition from the (rewritten) parent
+            for x in ast.walk(g.parent.node):
+                for fld in ("body", "orelse", "finalbody"):
+                    lst = getattr(x, fld, None)
+                    if isinstance(lst, list):
+                        lst[:] = [y for y in lst if not (isinstance(y, (ast.FunctionDef, ast.AsyncFunctionDef)) and y.name == g.name)] or ([ast.copy_location(ast.Pass(), x)] if lst and fld == "body" and isinstance(x, ast.stmt) else [])
+        # nested functions of an absorbed helper go with it
+        for q2 in [q2 for q2 in model.funcs if q2.startswith(hq + ".")]:
+            f2 = model.funcs.pop(q2)
+            if f2 in model.by_name.get(f2.name, []):
+                model.by_name[f2.name].remove(f2)
